@@ -1,1 +1,2 @@
 import Spec.Grammar
+import Spec.Config
